@@ -272,7 +272,7 @@ func stability(run *lib.Run, rng *lib.Rand, o lib.Opts) {
 			op("POST gray/raw (child)", dv.Post(node(u, "gray", "raw/0_1_2/32_32_32/0_0_0?u=verif"), grayB))
 		}
 		if has["lm"] {
-			op("POST lm/raw (child)", dv.Post(node(u, "lm", "raw/0_1_2/64_64_64/0_0_0?u=verif"), volBBytes))
+			op("POST lm/raw (child)", dv.Post(node(u, "lm", "raw/0_1_2/64_64_64/0_0_0?u=verif"), volBBytesG))
 			quiesce(true)
 			op("POST lm/merge (child)", dv.Post(node(u, "lm", "merge?u=verif"), []byte("[7,8]")))
 		}
